@@ -77,7 +77,21 @@ def straightline_env(stmts, upto=None, env=None):
                     env.pop(t.id, None)
         elif isinstance(s, ast.AugAssign) and isinstance(s.target, ast.Name):
             env.pop(s.target.id, None)
+        elif isinstance(s, ast.Expr) and isinstance(s.value, ast.Call) and isinstance(s.value.func, ast.Attribute) and \
+                isinstance(s.value.func.value, ast.Name) and s.value.func.attr in MUTATORS:
+            env.pop(s.value.func.value.id, None)          # x.append(..): x is no longer its initial literal
+        elif isinstance(s, (ast.For, ast.While, ast.With, ast.Try)):
+            # names bound or mutated inside a compound statement are not straight-line any more
+            for n in ast.walk(s):
+                if isinstance(n, ast.Name) and isinstance(n.ctx, ast.Store):
+                    env.pop(n.id, None)
+                if isinstance(n, ast.Call) and isinstance(n.func, ast.Attribute) and isinstance(n.func.value, ast.Name) and \
+                        n.func.attr in MUTATORS:
+                    env.pop(n.func.value.id, None)
     return env
+
+
+MUTATORS = ('append', 'extend', 'insert', 'pop', 'remove', 'clear', 'sort', 'reverse', 'update', 'add', 'discard', 'setdefault', 'fill')
 
 
 def stmts_of(node):
